@@ -125,6 +125,10 @@ def gen_block(rng, depth, maxdepth, plain=False, first_in_item=False):
         lines = []
         for _ in range(rng.randint(0, 4)):
             lines.append(rng.choice(["", gen_words(rng), "  " + gen_words(rng), "# x", "> y", "- z", "*a*", "<t>", "&amp;", "``", "~~", "\\"]))
+        if lines and rng.random() < 0.25:
+            # a run of two or three empty lines inside (or at an end of) the code: code keeps every blank line
+            k = rng.randint(0, len(lines))
+            lines[k:k] = [""] * rng.randint(2, 3)
         return ("fence", rng.choice(["", "py", "c lang"]), lines)
     if r < 0.57:
         lines = [gen_words(rng)]
